@@ -37,6 +37,9 @@ def cases(tier):
                             units=P.standard_units(nrep, 2, district=True), added=added, office="Y", unit_type="county-district",
                             aggregates=["postal_code", "district", "county_fips", "unit"], cut_calibration=True,
                             boot_sigma_deterministic=True, weight=nrep + 3))
+    # bootstrap (margin): two-run cases with a symbolic added unit make every denominator symbolic in the second run (12 min and
+    # non-reproducing candidates for one case); the bootstrap clause is covered by C01's bs cases (conservation of margin and
+    # two-party votes with a symbolic unexpected unit) and C06's interval cases (unexpected unit at county level) instead
     if tier == "thorough":
         for pi, nrep, alphas in (("nonparametric", 6, [0.5, 0.7]), ("gaussian", 7, [0.7, 0.9])):
             out.append(dict(name="%s_two_estimands" % pi[:2], pi=pi, alphas=alphas, estimands=["dem", "turnout"],
@@ -46,7 +49,62 @@ def cases(tier):
     return out
 
 
+def run_bs(ctx, case):
+    from . import bs as BS
+
+    sc = BS.build_bs(ctx, case)
+    pre, cur = sc.frames()
+    f = case["added"]
+    dem, gop = ctx.real("added_dem", 0, 10 ** 5), ctx.real("added_gop", 0, 10 ** 5)
+    oth = ctx.real("added_other", 0, 10 ** 5)
+    row = {"postal_code": "AA", "geographic_unit_fips": f, "percent_expected_vote": ctx.real("pev_added", 0, 120),
+           "results_dem": dem, "results_gop": gop, "results_turnout": dem + gop + oth}
+    cur2 = pd.concat([cur, pd.DataFrame([row])], ignore_index=True)
+    boot = BS.BootStub(ctx, case["B"]).install()
+    try:
+        r1 = BS.run_bs_client(ctx, case, sc=sc, boot=boot, frames=(pre.copy(), cur))
+        r2 = BS.run_bs_client(ctx, case, sc=sc, boot=boot, frames=(pre.copy(), cur2))
+    finally:
+        boot.uninstall()
+    a, b = r1.res, r2.res
+    obl = T.compare_tables(a["unit_data"], b["unit_data"], "unit table", skip_row=lambda k: k.get("geographic_unit_fips") == f)
+    ub = b["unit_data"].set_index("geographic_unit_fips")
+    obl.append(("the added unit appears once, categorised unexpected",
+                list(b["unit_data"]["geographic_unit_fips"]).count(f) == 1 and ub.loc[f, "unit_category"] == "unexpected"))
+    added_unit = type("UU", (), dict(fips=f, state="AA", in_baseline=False, county=None, district=None, classification=None))()
+    m, w = dem - gop, dem + gop
+    for table in c01.LEVELS:
+        if table not in a:
+            continue
+        lcols = c01.level_cols(case, table)
+        key = tuple(P.group_key(added_unit, lv, "county") for lv in lcols)
+        ta, tb = a[table], b[table]
+
+        def is_g(k, key=key, lcols=lcols):
+            return tuple(k.get(c) for c in lcols) == key
+
+        obl += T.compare_tables(ta, tb, table, skip_row=is_g)
+        ia = [i for i in range(len(ta)) if tuple(ta[c].iloc[i] for c in lcols) == key]
+        ib = [i for i in range(len(tb)) if tuple(tb[c].iloc[i] for c in lcols) == key]
+        obl.append(("%s has exactly one row for the added unit's group" % table, len(ib) == 1 and len(ia) <= 1))
+        if len(ib) != 1:
+            continue
+        pt0 = ta["pred_turnout"].iloc[ia[0]] if ia else 0
+        pm0 = ta["pred_margin"].iloc[ia[0]] if ia else 0
+        rm0 = ta["results_margin"].iloc[ia[0]] if ia else 0
+        pt1, pm1, rm1 = tb["pred_turnout"].iloc[ib[0]], tb["pred_margin"].iloc[ib[0]], tb["results_margin"].iloc[ib[0]]
+        if any(sym.is_special(x) for x in (pt1, pm1, rm1)):
+            obl.append(("%s: the group's values are numbers" % table, False))
+            continue
+        obl.append(("%s: predicted two-party turnout of the group grows by the unit's two-party votes" % table, T.cell_equal(pt1, pt0 + w)))
+        obl.append(("%s: numerator of the predicted margin grows by the unit's margin" % table, T.cell_equal(pm1 * pt1, pm0 * pt0 + m)))
+        obl.append(("%s: numerator of the counted margin grows by the unit's margin" % table, T.cell_equal(rm1 * pt1, rm0 * pt0 + m)))
+    return obl, {"run2": P.tables_out(b)}
+
+
 def run(ctx, case):
+    if case["pi"] == "bootstrap":
+        return run_bs(ctx, case)
     sc = P.build(ctx, case)
     pre, cur = sc.frames()
     # the added unit
